@@ -220,9 +220,9 @@ impl FromStr for KeyId {
 
     /// Parse a key ID from a string.
     fn from_str(string: &str) -> Result<Self> {
-        if string.len() != 64 {
+        if string.len() != 64 || !string.is_ascii() {
             return Err(Error::IllegalArgument(
-                "key ID must be 64 characters long".into(),
+                "key ID must be 64 ASCII characters long".into(),
             ));
         }
         Ok(KeyId(string.to_owned()))
